@@ -48,6 +48,15 @@ var behaviours = []behaviour{
 	{"panic(wrapped-error)", true, func(t *f1testing.T) { panic(fmt.Errorf("wrapped: %w", io.EOF)) }},
 	{"panic(typed-nil-pointer)", true, func(t *f1testing.T) { var p *custom; panic(p) }},
 	{"panic(nil-error-pointer)", true, func(t *f1testing.T) { var e *nilErr; var err error = e; panic(err) }},
+	// boundary arguments of the failure APIs, and the APIs that do not mark failure
+	{"Error(nil)", true, func(t *f1testing.T) { t.Error(nil) }},
+	{"Fatal(nil)", true, func(t *f1testing.T) { t.Fatal(nil) }},
+	{"Errorf(empty)", true, func(t *f1testing.T) { t.Errorf("") }},
+	{"Fatalf(empty)", true, func(t *f1testing.T) { t.Fatalf("") }},
+	{"Error(typed-nil)", true, func(t *f1testing.T) { var e *nilErr; t.Error(e) }},
+	{"Require.NoError", true, func(t *f1testing.T) { t.Require().NoError(errors.New("e")) }},
+	{"FailNow-in-timed-stage", true, func(t *f1testing.T) { t.Time("stage", func() { t.FailNow() }) }},
+	{"Log+Logf+timed-stage", false, func(t *f1testing.T) { t.Log("x", 1); t.Logf("%d", 1); t.Time("stage", func() {}) }},
 }
 
 type nilErr struct{}
@@ -133,7 +142,7 @@ func firstLine(s string) string {
 }
 
 func suiteOneWorker(maxLen int) hlib.Suite {
-	return hlib.Suite{Name: fmt.Sprintf("one-worker/all-sequences<=%d/19-behaviours", maxLen), Weight: 3, Run: func(r *hlib.Rec) {
+	return hlib.Suite{Name: fmt.Sprintf("one-worker/all-sequences<=%d/%d-behaviours", maxLen, len(behaviours)), Weight: 3, Run: func(r *hlib.Rec) {
 		n := len(behaviours)
 		var rec func(cur []int)
 		rec = func(cur []int) {
